@@ -54,29 +54,77 @@ structure LeakM (α : Type) where
   val : α
   tr : Trace
 
+/-- (a named definition, so that the kernel compares `f x` with its `do` body by unfolding `f`, never the `bind`s) -/
+def LeakM.bind {α β : Type} (m : LeakM α) (f : α → LeakM β) : LeakM β := ⟨(f m.val).val, m.tr ++ (f m.val).tr⟩
+
 instance : Monad LeakM where
   pure a := ⟨a, []⟩
-  bind m f := ⟨(f m.val).val, m.tr ++ (f m.val).tr⟩
+  bind := LeakM.bind
 
 def emit (e : Event) : LeakM Unit := ⟨(), [e]⟩
 
-/-- value-or-panic + events: a panic cuts the computation (and the trace) -/
+/-- value-or-panic + events: a panic cuts the computation (and the trace).
+    The two components are read through `LO.val` / `LO.tr`, which — like `LO.bind` — are made irreducible below:
+    elaborator and kernel then never evaluate a symbolic limb computation while comparing `(fL x).val` with something
+    (the overflow checks of `Fe64.sub` compare against literals of 2^54 and make such an evaluation diverge). -/
 structure LO (α : Type) where
-  val : Option α
-  tr : Trace
+  mk ::
+  out : Option α
+  evs : Trace
+
+namespace LO
+def val {α : Type} (m : LO α) : Option α := m.out
+def tr {α : Type} (m : LO α) : Trace := m.evs
+
+def bind {α β : Type} (m : LO α) (f : α → LO β) : LO β :=
+  match m.out with
+  | none => ⟨none, m.evs⟩
+  | some a => ⟨(f a).out, m.evs ++ (f a).evs⟩
 
 instance : Monad LO where
   pure a := ⟨some a, []⟩
-  bind m f := match m.val with
-    | none => ⟨none, m.tr⟩
-    | some a => ⟨(f a).val, m.tr ++ (f a).tr⟩
+  bind := LO.bind
 
-namespace LO
 /-- straight-line (checked) arithmetic: the value of the plain model, no event -/
 def lift {α : Type} (x : Option α) : LO α := ⟨x, []⟩
 def emit (e : Event) : LO Unit := ⟨some (), [e]⟩
 /-- a writer computation that cannot panic -/
 def ofLeakM {α : Type} (m : LeakM α) : LO α := ⟨some m.val, m.tr⟩
+
+@[simp] theorem pure_val {α : Type} (a : α) : (pure a : LO α).val = some a := rfl
+@[simp] theorem pure_tr {α : Type} (a : α) : (pure a : LO α).tr = [] := rfl
+@[simp] theorem lift_val {α : Type} (x : Option α) : (lift x).val = x := rfl
+@[simp] theorem lift_tr {α : Type} (x : Option α) : (lift x).tr = [] := rfl
+@[simp] theorem emit_val (e : Event) : (emit e).val = some () := rfl
+@[simp] theorem emit_tr (e : Event) : (emit e).tr = [e] := rfl
+@[simp] theorem ofLeakM_val {α : Type} (m : LeakM α) : (ofLeakM m).val = some m.val := rfl
+@[simp] theorem ofLeakM_tr {α : Type} (m : LeakM α) : (ofLeakM m).tr = m.tr := rfl
+
+/-- erasure commutes with `bind` -/
+theorem bind_val {α β : Type} (m : LO α) (f : α → LO β) :
+    (m >>= f).val = m.val.bind (fun a => (f a).val) := by
+  show (LO.bind m f).out = m.out.bind (fun a => (f a).out)
+  unfold LO.bind
+  cases m.out <;> rfl
+
+theorem bind_val_some {α β : Type} (m : LO α) (f : α → LO β) (a : α) (h : m.val = some a) :
+    (m >>= f).val = (f a).val := by
+  rw [bind_val, h]; rfl
+
+theorem bind_tr_some {α β : Type} (m : LO α) (f : α → LO β) (a : α) (h : m.val = some a) :
+    (m >>= f).tr = m.tr ++ (f a).tr := by
+  show (LO.bind m f).evs = m.evs ++ (f a).evs
+  unfold LO.bind
+  have h' : m.out = some a := h
+  rw [h']
+
+theorem bind_tr_none {α β : Type} (m : LO α) (f : α → LO β) (h : m.val = none) : (m >>= f).tr = m.tr := by
+  show (LO.bind m f).evs = m.evs
+  unfold LO.bind
+  have h' : m.out = none := h
+  rw [h']
+
+attribute [irreducible] LO.val LO.tr LO.bind
 end LO
 
 /-- a `for` loop over a list: the bound is emitted once, then the body runs for every element -/
@@ -265,5 +313,466 @@ def finishTailBranchL (st : State) : LeakM (Except Panic State) := do
   pure (finishTail st)
 
 end Poly
+
+/-! ## (a) curve25519/mod.rs: `curve25519`, `curve25519_base` (the X25519 ladder) on the 64-bit field backend -/
+section X25519
+open Cx.Impl.Fe64 Cx.Impl.X25519
+
+/-- the iterations of `for _ in 0..n { <body of square> }` -/
+def squareLoopL (f : Fe) : Nat → LO Fe
+  | 0 => pure f
+  | n + 1 => do
+    let g ← LO.lift (square f)
+    squareLoopL g n
+
+/-- `pub fn square_repeatdly(&self, n: usize) -> Fe`: the bound is an argument -/
+def square_repeatdlyL (f : Fe) (n : Nat) : LO Fe := do
+  LO.emit (.loopBound n)
+  squareLoopL f n
+
+/-- the common prefix of `pow25523` and `invert` (fe/mod.rs): a fixed addition chain -/
+def chain250L (z1 : Fe) : LO (Fe × Fe) := do
+  let z2 ← LO.lift (square z1)
+  let z8 ← square_repeatdlyL z2 2
+  let z9 ← LO.lift (mul z1 z8)
+  let z11 ← LO.lift (mul z2 z9)
+  let z22 ← LO.lift (square z11)
+  let z_5_0 ← LO.lift (mul z9 z22)
+  let z_10_5 ← square_repeatdlyL z_5_0 5
+  let z_10_0 ← LO.lift (mul z_10_5 z_5_0)
+  let z_20_10 ← square_repeatdlyL z_10_0 10
+  let z_20_0 ← LO.lift (mul z_20_10 z_10_0)
+  let z_40_20 ← square_repeatdlyL z_20_0 20
+  let z_40_0 ← LO.lift (mul z_40_20 z_20_0)
+  let z_50_10 ← square_repeatdlyL z_40_0 10
+  let z_50_0 ← LO.lift (mul z_50_10 z_10_0)
+  let z_100_50 ← square_repeatdlyL z_50_0 50
+  let z_100_0 ← LO.lift (mul z_100_50 z_50_0)
+  let z_200_100 ← square_repeatdlyL z_100_0 100
+  let z_200_0 ← LO.lift (mul z_200_100 z_100_0)
+  let z_250_50 ← square_repeatdlyL z_200_0 50
+  let z_250_0 ← LO.lift (mul z_250_50 z_50_0)
+  pure (z11, z_250_0)
+
+/-- `pub fn invert(&self) -> Fe` -/
+def invertL (z : Fe) : LO Fe := do
+  let r ← chain250L z
+  let z_255_5 ← square_repeatdlyL r.2 5
+  LO.lift (mul z_255_5 r.1)
+
+/-- `pub fn pow25523(&self) -> Fe` -/
+def pow25523L (z : Fe) : LO Fe := do
+  let r ← chain250L z
+  let z_252_2 ← square_repeatdlyL r.2 2
+  LO.lift (mul z_252_2 z)
+
+/-- `let b = ((e[pos / 8] >> (pos & 7)) & 1).ct_nonzero();` — the byte is read at the index `pos / 8` (loop
+    counter); shift, mask and `ct_nonzero` are arithmetic -/
+def bitChoiceL (e : Bytes) (he : e.length = 32) (pos : Nat) (hp : pos < 255) : LO Choice := do
+  LO.emit (.index (pos / 8))
+  pure (bitChoice e he pos hp)
+
+/-- the 18 field operations of one ladder step, in source order; each is straight-line checked limb arithmetic -/
+def ladderArithL (a24p1 : Nat) (z5k : Z5) (x2 z2 x3 z3 : Fe) : LO (Fe × Fe × Fe × Fe) := do
+  let d ← LO.lift (sub x3 z3)
+  let b ← LO.lift (sub x2 z2)
+  let a ← LO.lift (add x2 z2)
+  let c ← LO.lift (add x3 z3)
+  let da ← LO.lift (mul d a)
+  let cb ← LO.lift (mul c b)
+  let bb ← LO.lift (square b)
+  let aa ← LO.lift (square a)
+  let t0 ← LO.lift (add da cb)
+  let t1 ← LO.lift (sub da cb)
+  let x4 ← LO.lift (mul aa bb)
+  let e ← LO.lift (sub aa bb)
+  let t2 ← LO.lift (square t1)
+  let t3 ← LO.lift (mul_small e a24p1)
+  let x5 ← LO.lift (square t0)
+  let t4 ← LO.lift (add bb t3)
+  let z5 ← LO.lift (z5Of z5k t2)          -- which of the two source texts (`&x1 * &t2` / `mul_small::<9>`): not a run-time test
+  let z4 ← LO.lift (mul e t4)
+  pure (x4, z4, x5, z5)
+
+/-- the body of the loop after the bit: `x2.maybe_swap_with(&mut x3, swap ^ b); z2.maybe_swap_with(&mut z3, swap ^ b);
+    swap = b;` (masked: no event, see `ct_array64_maybe_swap_withL`), then the arithmetic -/
+def ladderStepCoreL (a24p1 : Nat) (z5k : Z5) (s : Ladder) (b : Choice) : LO Ladder := do
+  let c := s.swap.xor b
+  let x := maybe_swap_with s.x2 s.x3 c
+  let z := maybe_swap_with s.z2 s.z3 c
+  let r ← ladderArithL a24p1 z5k x.1 z.1 x.2 z.2
+  pure ⟨r.1, r.2.1, r.2.2.1, r.2.2.2, b⟩
+
+/-- the body of `for pos in (0usize..255).rev()` -/
+def ladderStepL (e : Bytes) (he : e.length = 32) (a24p1 : Nat) (z5k : Z5) (s : Ladder) (pos : Nat) (hp : pos < 255) :
+    LO Ladder := do
+  let b ← bitChoiceL e he pos hp
+  ladderStepCoreL a24p1 z5k s b
+
+/-- the iterations `pos = k-1, …, 0` -/
+def ladderLoopL (e : Bytes) (he : e.length = 32) (a24p1 : Nat) (z5k : Z5) : (k : Nat) → k ≤ 255 → Ladder → LO Ladder
+  | 0, _, s => pure s
+  | k + 1, hk, s => do
+    let s' ← ladderStepL e he a24p1 z5k s k (by omega)
+    ladderLoopL e he a24p1 z5k k (by omega) s'
+
+/-- the statements shared by `curve25519` and `curve25519_base`: clamping (constant indices 0 and 31), the loop,
+    the final masked swaps, `(&z2.invert() * &x2).to_bytes()` -/
+def ladderMainL (n : Bytes) (hn : n.length = 32) (x1 : Fe) (a24p1 : Nat) (z5k : Z5) : LO Bytes := do
+  let e := clampE n
+  LO.emit (.loopBound 255)
+  let s ← ladderLoopL e (by rw [clampE_length]; exact hn) a24p1 z5k 255 (by omega)
+    ⟨Fe.ONE, Fe.ZERO, x1, Fe.ONE, u64_ct_zero 1⟩
+  let x2 := (maybe_swap_with s.x2 s.x3 s.swap).1
+  let z2 := (maybe_swap_with s.z2 s.z3 s.swap).1
+  let zi ← invertL z2
+  let r ← LO.lift (mul zi x2)
+  LO.lift (to_bytes r)
+
+/-- `pub fn curve25519(n: &[u8; 32], p: &[u8; 32]) -> [u8; 32]` (`Fe::from_bytes`: constant offsets, masks) -/
+def curve25519L (n p : Bytes) (hn : n.length = 32) (hp : p.length = 32) : LO Bytes :=
+  let x1 := from_bytes p hp
+  ladderMainL n hn x1 A24P1 (.mulX1 x1)
+
+/-- `pub fn curve25519_base(n: &[u8; 32]) -> [u8; 32]` -/
+def curve25519_baseL (n : Bytes) (hn : n.length = 32) : LO Bytes :=
+  let x1 := from_bytes BASE BASE_length
+  ladderMainL n hn x1 A24P1_BASE (.small NINE)
+
+/-- NEGATIVE CONTROL (not in the crate): a ladder step that BRANCHES on the key bit instead of the masked swap -/
+def ladderStepBranchL (e : Bytes) (he : e.length = 32) (a24p1 : Nat) (z5k : Z5) (s : Ladder) (pos : Nat)
+    (hp : pos < 255) : LO Ladder := do
+  let b ← bitChoiceL e he pos hp
+  LO.emit (.branch (s.swap.xor b).isTrue)         -- `if swap ^ b { mem::swap(x2, x3); mem::swap(z2, z3) }`
+  ladderStepCoreL a24p1 z5k s b
+
+end X25519
+
+/-! ## (b) Ed25519 key generation and signing: scalar/scalar64.rs, ge.rs, ed25519.rs -/
+section Ed25519
+open Cx.Impl.Fe64 Cx.Impl.Ge Cx.Impl.Ed25519
+open Cx.Impl.Scalar64 (Scalar ckI8 shlI8)
+
+/-- emit one `index` event per element -/
+def emitIdx : List Nat → LO Unit
+  | [] => pure ()
+  | i :: is => do
+    LO.emit (.index i)
+    emitIdx is
+
+/-- the indices touched by `Scalar::nibbles`: `for b in 0..4 { es[16*b + 0] = ((c[b] >> 0) & 0b1111) as i8; … }` —
+    `c[b]` and `es[16*b + k]`, all functions of the loop counter -/
+def nibbleIdx : List Nat := (List.range 4).flatMap fun b => b :: (List.range 16).map fun k => 16 * b + k
+
+/-- `pub(crate) fn nibbles(&self) -> [i8; 64]`: the four saturated words (shifts / ors), then the loop; the DIGITS
+    are computed by shifts and masks -/
+def nibblesL (s : Scalar) : LO (Vector Int 64) := do
+  LO.emit (.loopBound 4)
+  emitIdx nibbleIdx
+  pure (Scalar64.nibbles s)
+
+/-- the body of `for esi in es[0..63].iter_mut() { *esi += carry; carry = *esi + 8; carry >>= 4; *esi -= carry << 4; }`
+    (checked `i8` arithmetic, an iterator: no index, no branch) -/
+def recodeLoopL : List Int → Int → LO (List Int × Int)
+  | [], carry => pure ([], carry)
+  | e :: es, carry => do
+    let e1 ← LO.lift (ckI8 (e + carry))
+    let c1 ← LO.lift (ckI8 (e1 + 8))
+    let c2 := c1 / 16
+    let e2 ← LO.lift (ckI8 (e1 - shlI8 c2 4))
+    let r ← recodeLoopL es c2
+    pure (e2 :: r.1, r.2)
+
+/-- the signed radix-16 recoding inside `scalarmult_base`: the loop over `es[0..63]`, then `es[63] += carry` -/
+def recodeL (es : List Int) : LO (List Int) := do
+  LO.emit (.loopBound 63)
+  let r ← recodeLoopL (es.take 63) 0
+  let top ← LO.lift es[63]?
+  let top ← LO.lift (ckI8 (top + r.2))
+  pure (r.1 ++ [top])
+
+/-- `GePrecomp::select(pos: usize, b: i8)`:
+    `debug_assert!(b >= -8 && b <= 8)` (a build with debug assertions tests the SECRET digit: the event is emitted, a
+    failed assertion is a panic); `bnegative`, `babs`: shifts, masks and one checked subtraction; the table ROW is
+    `precomp::GE_BASE[pos]` with `pos` the comb position; ALL eight entries `[0] … [7]` are read (constant indices) and
+    merged by `maybe_set` under the mask `babs.ct_eq(k+1)`; the conditional negation is a ninth `maybe_set` under
+    `bnegative.ct_nonzero()` -/
+def selectL (pos : Nat) (b : Int) : LO GePrecomp := do
+  LO.emit (.branch (decide (b < -8 ∨ b > 8)))
+  if b < -8 ∨ b > 8 then LO.lift none
+  else do
+    let bnegative := bnegativeOf b
+    let babs ← LO.lift (babsOf b)
+    LO.emit (.index pos)
+    let row ← LO.lift GE_BASE[pos]?
+    let babs8 := UInt8.ofNat babs
+    let step (t : GePrecomp) (k : Nat) : LO GePrecomp := do
+      let e ← LO.lift row[k]?
+      pure (t.maybe_set e (CT.u8_ct_eq babs8 (UInt8.ofNat (k + 1))))
+    let t := GePrecomp.ZERO
+    let t ← step t 0
+    let t ← step t 1
+    let t ← step t 2
+    let t ← step t 3
+    let t ← step t 4
+    let t ← step t 5
+    let t ← step t 6
+    let t ← step t 7
+    let nxy ← LO.lift (neg t.xy2d)
+    let minus_t : GePrecomp := ⟨t.y_minus_x, t.y_plus_x, nxy⟩
+    pure (t.maybe_set minus_t (CT.u8_ct_nonzero (UInt8.ofNat bnegative)))
+
+/-- `for j in 0..32 { let i = j * 2 + off; t = GePrecomp::select(j, es[i]); r = &h + &t; h = r.to_full(); }`
+    (`&h + &t`, `to_full`: 7 + 4 field operations, straight-line) -/
+def combLoopL (es : List Int) (off : Nat) : Nat → Nat → Ge → LO Ge
+  | 0, _, h => pure h
+  | n + 1, j, h => do
+    LO.emit (.index (j * 2 + off))
+    let e ← LO.lift es[j * 2 + off]?
+    let t ← selectL j e
+    let r ← LO.lift (h.add_precomp t)
+    let h ← LO.lift r.to_full
+    combLoopL es off n (j + 1) h
+
+/-- `Ge::scalarmult_base(a: &Scalar) -> Ge` -/
+def scalarmult_baseL (a : Scalar) : LO Ge := do
+  let nib ← nibblesL a
+  let es ← recodeL nib.toList
+  LO.emit (.loopBound 32)
+  let h ← combLoopL es 1 32 0 Ge.ZERO
+  let h ← LO.lift h.double_partial
+  let h ← LO.lift h.double
+  let h ← LO.lift h.double
+  let h ← LO.lift h.double_full
+  LO.emit (.loopBound 32)
+  combLoopL es 0 32 0 h
+
+/-- `Ge::to_affine`: one inversion (the addition chain), two multiplications -/
+def to_affineL (self : Ge) : LO GeAffine := do
+  let recip ← invertL self.z
+  let x ← LO.lift (mul self.x recip)
+  let y ← LO.lift (mul self.y recip)
+  pure ⟨x, y⟩
+
+/-- `GeAffine::to_bytes`: `let mut bs = self.y.to_bytes(); bs[31] ^= (if self.x.is_negative() { 1 } else { 0 }) << 7;`
+    — `is_negative` is `(self.to_packed()[0] & 1) != 0` (a value), but the `if … { 1 } else { 0 }` is a source-level
+    BRANCH on it: the event is emitted.  Its condition is bit 255 of the RESULT (the sign of x in the encoding of a
+    public point: the public key, or R of a signature), see Props/C19/LeakReal.lean. -/
+def affine_to_bytesL (self : GeAffine) : LO Bytes := do
+  let bs ← LO.lift (Fe64.to_bytes self.y)
+  let n ← LO.lift (is_negative self.x)
+  LO.emit (.branch n)
+  pure (setSign bs n)
+
+/-- `Ge::to_bytes` -/
+def ge_to_bytesL (self : Ge) : LO Bytes := do
+  let a ← to_affineL self
+  affine_to_bytesL a
+
+/-- `Sha512::new().update(a).finalize()`: the hash context is a PRIMITIVE of this model (an assumption, stated here):
+    its control flow (buffering, number of compressions, padding) depends on the LENGTHS of the `update` arguments
+    only, so one `length` event per argument stands for it.  Section (d) proves this for the buffering
+    (`FixedBuffer::input`, the three regimes); padding / length field / compression loop are not instrumented. -/
+def sha512_1L (a : Bytes) : LO Bytes := do
+  LO.emit (.length a.length)
+  LO.lift (sha512_1 a)
+
+/-- `Sha512::new().update(a).update(b).finalize()` -/
+def sha512_2L (a b : Bytes) : LO Bytes := do
+  LO.emit (.length a.length)
+  LO.emit (.length b.length)
+  LO.lift (sha512_2 a b)
+
+/-- `fn clamp_scalar(scalar: &mut [u8])`: constant indices 0 and 31 (bounds checks against the LENGTH), masks -/
+def clamp_scalarL (scalar : Bytes) : LO Bytes := do
+  LO.emit (.length scalar.length)
+  LO.lift (clamp_scalar scalar)
+
+/-- `fn extended_secret(private_key: &[u8; 32]) -> [u8; 64]` (the `if` of the model is the array TYPE) -/
+def extended_secretL (private_key : Bytes) : LO Bytes :=
+  if private_key.length = 32 then do
+    let hash_output ← sha512_1L private_key
+    clamp_scalarL hash_output
+  else LO.lift none
+
+/-- `pub fn extended_to_public(extended_secret: &[u8; 64]) -> [u8; 32]` (`Scalar::from_bytes`: constant offsets) -/
+def extended_to_publicL (extended_secret : Bytes) : LO Bytes := do
+  let s ← LO.lift (extended_scalar extended_secret)
+  let a ← scalarmult_baseL s
+  ge_to_bytesL a
+
+/-- `pub fn keypair(secret_key: &[u8; 32]) -> ([u8; 64], [u8; 32])` (`copy_from_slice` on constant ranges) -/
+def keypairL (secret_key : Bytes) : LO (Bytes × Bytes) := do
+  let extended_secret ← extended_secretL secret_key
+  let public_key ← extended_to_publicL extended_secret
+  let output := secret_key ++ extended_secret.drop 32
+  let output := output.take 32 ++ public_key
+  pure (output, public_key)
+
+/-- `fn signature_nonce(extended_secret: &[u8; 64], message: &[u8]) -> Scalar`: the hash of prefix ‖ M, then
+    `Scalar::reduce_from_wide_bytes` = loads at constant offsets + `barrett_reduce256`, whose two conditional
+    subtractions of the order are `reduce256`: `let mask = b.wrapping_sub(1); r[i] ^ (mask & (r[i] ^ t[i]))` — masks,
+    no branch (straight-line checked u64/u128 arithmetic) -/
+def signature_nonceL (extended_secret message : Bytes) : LO Scalar :=
+  if extended_secret.length = 64 then do
+    let hash_output ← sha512_2L (extended_secret.drop 32) message
+    LO.lift (Scalar64.reduceFromWideBytes hash_output)
+  else LO.lift none
+
+/-- `scalar::muladd(a, b, c)`: `mul` (schoolbook 5×5 limbs + Barrett) then `add` (+ `reduce256`), straight-line -/
+def muladdL (a b c : Scalar) : LO Scalar := do
+  let m ← LO.lift (Scalar64.mul a b)
+  let r ← LO.lift (Scalar64.add m c)
+  pure r
+
+/-- the statements shared by `signature` and `signature_extended` after `public_key`, `az` and `nonce` are known -/
+def signature_tailL (message public_key az : Bytes) (nonce : Scalar) : LO Bytes := do
+  let r ← scalarmult_baseL nonce
+  let rb ← ge_to_bytesL r
+  let signature := rb ++ public_key
+  let hram ← sha512_2L signature message
+  let hram ← LO.lift (Scalar64.reduceFromWideBytes hram)
+  let a ← LO.lift (extended_scalar az)
+  let s ← muladdL hram a nonce
+  pure (signature.take 32 ++ Scalar64.to_bytes s)
+
+/-- `pub fn signature(message: &[u8], keypair: &[u8; 64]) -> [u8; 64]` -/
+def signatureL (message keypair : Bytes) : LO Bytes := do
+  let private_key ← LO.lift (keypair_private keypair)
+  let public_key ← LO.lift (keypair_public keypair)
+  let az ← extended_secretL private_key
+  let nonce ← signature_nonceL az message
+  signature_tailL message public_key az nonce
+
+/-- `pub fn signature_extended(message: &[u8], extended_secret: &[u8; 64]) -> [u8; 64]` -/
+def signature_extendedL (message extended_secret : Bytes) : LO Bytes := do
+  let public_key ← extended_to_publicL extended_secret
+  let nonce ← signature_nonceL extended_secret message
+  signature_tailL message public_key extended_secret nonce
+
+/-! the one DECLASSIFIED bit: the outcome of `if x.is_negative() { 1 } else { 0 }` in `GeAffine::to_bytes`, as a
+    function of the inputs (by `setSign` it is bit 255 of the encoding that is output: the public key resp. R) -/
+
+/-- bit 255 of a 32-byte encoding (bit 7 of byte 31) -/
+def topBit (b : Bytes) : Bool :=
+  match (b[31]? : Option UInt8) with
+  | some x => (x >>> 7) != 0
+  | none => false
+
+/-- sign of the affine x of a point (`false` when the model panics; then there is no trace to speak of) -/
+def geSign (g : Ge) : Bool :=
+  match g.to_affine with
+  | some a => (is_negative a.x).getD false
+  | none => false
+
+/-- … of the public point of an extended secret -/
+def pkSign (ext : Bytes) : Bool :=
+  match extended_scalar ext with
+  | some s => match Ge.scalarmult_base s with
+    | some a => geSign a
+    | none => false
+  | none => false
+
+/-- … of the public key of a seed -/
+def keypairSign (seed : Bytes) : Bool :=
+  match extended_secret seed with
+  | some ext => pkSign ext
+  | none => false
+
+/-- … of the point R = [r]B of a signature -/
+def nonceSign (nonce : Scalar) : Bool :=
+  match Ge.scalarmult_base nonce with
+  | some r => geSign r
+  | none => false
+
+def signatureSign (message keypair : Bytes) : Bool :=
+  match keypair_private keypair with
+  | some sk => match extended_secret sk with
+    | some az => match signature_nonce az message with
+      | some nonce => nonceSign nonce
+      | none => false
+    | none => false
+  | none => false
+
+/-- NEGATIVE CONTROL (not in the crate): table selection with an early-exit search
+    `for k in 0..8 { if babs == k + 1 { return row[k] } }` -/
+def selectEarlyExitL (row : List GePrecomp) (babs : Nat) : Nat → Nat → LO GePrecomp
+  | 0, _ => pure GePrecomp.ZERO
+  | n + 1, k => do
+    LO.emit (.branch (babs == k + 1))
+    if babs == k + 1 then do
+      LO.emit (.index k)
+      LO.lift row[k]?
+    else selectEarlyExitL row babs n (k + 1)
+
+/-! ### variable-time code on PUBLIC data (`verify`): the instrumentation sees its branches -/
+
+/-- the first loop of `GePartial::double_scalarmult_vartime`:
+    `for i in (0..256).rev() { if aslide[i] != 0 || bslide[i] != 0 { break; } }` -/
+def topIndexL (aslide bslide : List Int) : Nat → LO (Option Nat)
+  | 0 => pure none
+  | n + 1 => do
+    LO.emit (.index n)
+    LO.emit (.branch (aslide[n]? != some 0 || bslide[n]? != some 0))
+    if aslide[n]? != some 0 || bslide[n]? != some 0 then pure (some n) else topIndexL aslide bslide n
+
+/-- one pass of the second loop:
+    `if aslide[i] > 0 { t = &t.to_full() + &ai[(aslide[i] / 2) as usize] } else if aslide[i] < 0 { … - … }` and the
+    same with `bslide[i]` / `BI` — branches and table indices on the sliding-window DIGITS -/
+def dsmStepL (ai : List GeCached) (aslide bslide : List Int) (r : GePartial) (i : Nat) : LO GePartial := do
+  let t ← LO.lift r.double_p1p1
+  LO.emit (.index i)
+  let ad ← LO.lift aslide[i]?
+  LO.emit (.branch (decide (ad > 0)))
+  let t ←
+    if ad > 0 then do
+      LO.emit (.index (Int.tdiv ad 2).toNat)
+      let c ← LO.lift ai[(Int.tdiv ad 2).toNat]?
+      let f ← LO.lift t.to_full
+      LO.lift (f.add_cached c)
+    else do
+      LO.emit (.branch (decide (ad < 0)))
+      if ad < 0 then do
+        let nd ← LO.lift (ckI8 (-ad))
+        LO.emit (.index (Int.tdiv nd 2).toNat)
+        let c ← LO.lift ai[(Int.tdiv nd 2).toNat]?
+        let f ← LO.lift t.to_full
+        LO.lift (f.sub_cached c)
+      else pure t
+  let bd ← LO.lift bslide[i]?
+  LO.emit (.branch (decide (bd > 0)))
+  let t ←
+    if bd > 0 then do
+      LO.emit (.index (Int.tdiv bd 2).toNat)
+      let c ← LO.lift BI[(Int.tdiv bd 2).toNat]?
+      let f ← LO.lift t.to_full
+      LO.lift (f.add_precomp c)
+    else do
+      LO.emit (.branch (decide (bd < 0)))
+      if bd < 0 then do
+        let nd ← LO.lift (ckI8 (-bd))
+        LO.emit (.index (Int.tdiv nd 2).toNat)
+        let c ← LO.lift BI[(Int.tdiv nd 2).toNat]?
+        let f ← LO.lift t.to_full
+        LO.lift (f.sub_precomp c)
+      else pure t
+  LO.lift t.to_partial
+
+/-- the second loop: indices `n-1, …, 0` -/
+def dsmLoopL (ai : List GeCached) (aslide bslide : List Int) : Nat → GePartial → LO GePartial
+  | 0, r => pure r
+  | n + 1, r => do
+    let r ← dsmStepL ai aslide bslide r n
+    dsmLoopL ai aslide bslide n r
+
+/-- the two loops of `double_scalarmult_vartime` on given digit lists and odd-multiples table -/
+def dsmMainL (ai : List GeCached) (aslide bslide : List Int) : LO GePartial := do
+  match ← topIndexL aslide bslide 256 with
+  | none => pure GePartial.ZERO
+  | some i => do
+    LO.emit (.loopBound (i + 1))
+    dsmLoopL ai aslide bslide (i + 1) GePartial.ZERO
+
+end Ed25519
 
 end Cx.Impl.LeakModel
